@@ -95,14 +95,18 @@ def block_ids(H, W, rows, cols):
 def gen_jobs(ctx, rng):
     quick = ctx.tier == "quick"
     jobs = []
-    nras = 10 if quick else 60
-    for _ in range(nras):
+    nras = 14 if quick else 70
+    for ri in range(nras):
         H, W = rng.choice([(2, 3), (3, 3), (3, 4), (4, 4), (4, 5), (2, 6)])
         zalpha = rng.choice([[1, 2, 3], [1, 2, 3.5, -1], [0, 5, 7, "nan"], [1, 2, "nan", -1.5, 4]])
         zones = [[rng.choice(zalpha) for _ in range(W)] for _ in range(H)]
         if not any(isinstance(v, (int, float)) for row in zones for v in row):
             zones[0][0] = 1
-        valpha = rng.choice([[0, 1, 2, 3], [-3, 0, 2, 9, "nan"], [1, 2, 5, "nan", "inf"], [4, 4, 7]])
+        # value alphabets are CYCLED (every one appears in the quick tier): mixed signs, NaN/inf, repeated values, and
+        # zones whose values are all negative / all zero (a combiner seeded with 0 or a positive sentinel shows there)
+        valphas = [[0, 1, 2, 3], [-3, 0, 2, 9, "nan"], [1, 2, 5, "nan", "inf"], [4, 4, 7], [-5, -3, -1, "nan"],
+                   [0, -2, 0], [-7, -7, "-inf", -1]]
+        valpha = valphas[ri % len(valphas)]
         values = [[rng.choice(valpha) for _ in range(W)] for _ in range(H)]
         zfloat = any(isinstance(v, str) or v != int(v) for row in zones for v in row)
         vfloat = any(isinstance(v, str) for row in values for v in row)
